@@ -157,8 +157,8 @@ Proof.
   rewrite split_some_none; [reflexivity|].
   induction Hs as [|f l Hall _ IH]; constructor; [|exact IH].
   eapply Forall_impl; [|exact Hall]. cbn. intros f' Hle. unfold hdr_res. intros Hn.
-  destruct (hdr_first data (rev (argsort data)) (zsum data) upper (zseqn 1 (length data - 1)) None f) eqn:E1;
-    [discriminate|].
+  destruct (hdr_first data (rev (argsort data)) (zsum data) upper (zseqn 1 (length data - 1))
+              (Some (zget data (zget (rev (argsort data)) 0))) f) eqn:E1; [discriminate|].
   now rewrite (hdr_first_mono _ _ _ _ f f' Hle _ _ E1).
 Qed.
 
